@@ -41,8 +41,29 @@ def txn_schedules():
     return S
 
 
+def crossdb_schedules():
+    """Waiters on the SAME key name in two databases, pushes to both handled in ONE pass of the event loop (one pipeline
+    with SELECTs in between, one EXEC with a queued SELECT, two connections released together by the loop gate): each
+    waiter is served from its own database (C13 served promptly, C18 isolation)."""
+    S = []
+    two = [('open', 1), ('open', 2), ('open', 3), ('send', 1, B('BLPOP', 'q', 0)), ('sync',), ('call', 3, B('SELECT', 1)), ('send', 3, B('BRPOP', 'q', 0)), ('sync',)]
+    tail = [('sync',), ('pump', 1, 600), ('pump', 3, 600), ('call', 2, B('SELECT', 0)), ('call', 2, B('LRANGE', 'q', 0, -1)), ('call', 2, B('SELECT', 1)),
+            ('call', 2, B('LRANGE', 'q', 0, -1))]
+    S.append(('same-name-two-dbs-one-pipeline', two + [('send', 2, B('SELECT', 0), B('RPUSH', 'q', 'for-db0'), B('SELECT', 1), B('RPUSH', 'q', 'for-db1')), ('pump', 2, 600)] + tail))
+    S.append(('same-name-two-dbs-one-exec', two + [('send', 2, B('MULTI'), B('RPUSH', 'q', 'for-db0'), B('SELECT', 1), B('RPUSH', 'q', 'for-db1', 'second'), B('EXEC')),
+                                                   ('pump', 2, 600)] + tail))
+    S.append(('same-name-two-dbs-two-pushers-one-pass', two + [('open', 4), ('call', 4, B('SELECT', 1)), ('gate', 'on'), ('send', 2, B('LPUSH', 'q', 'for-db0')),
+                                                               ('send', 4, B('LPUSH', 'q', 'for-db1')), ('gate', 'step'), ('gate', 'off'), ('pump', 2, 600), ('pump', 4, 600)] + tail))
+    S.append(('three-dbs-burst', [('open', 1), ('open', 2), ('open', 3), ('open', 4), ('call', 1, B('SELECT', 2)), ('send', 1, B('BLPOP', 'q', 'r', 0)), ('sync',),
+                                  ('call', 3, B('SELECT', 5)), ('send', 3, B('BLPOP', 'r', 'q', 0)), ('sync',), ('send', 4, B('BLPOP', 'q', 0)), ('sync',),
+                                  ('send', 2, B('SELECT', 5), B('RPUSH', 'q', 'five'), B('SELECT', 2), B('RPUSH', 'q', 'two'), B('SELECT', 0), B('RPUSH', 'q', 'zero'), B('RPUSH', 'q', 'extra')),
+                                  ('pump', 2, 800), ('sync',), ('pump', 1, 600), ('pump', 3, 600), ('pump', 4, 600), ('call', 2, B('LRANGE', 'q', 0, -1)),
+                                  ('call', 2, B('SELECT', 2)), ('call', 2, B('LRANGE', 'q', 0, -1)), ('call', 2, B('SELECT', 5)), ('call', 2, B('LRANGE', 'q', 0, -1))]))
+    return S
+
+
 def directed():
-    S = txn_schedules()
+    S = txn_schedules() + crossdb_schedules()
     S.append(('basic', [('open', 1), ('open', 2), ('send', 1, B('BLPOP', 'q', 0)), ('sync',), ('call', 2, B('RPUSH', 'q', 'a')), ('sync',), ('pump', 1, 500),
                         ('call', 2, B('LRANGE', 'q', 0, -1))]))
     S.append(('multikey-leftover', [('open', 1), ('open', 2), ('send', 1, B('BLPOP', 'a', 'b', 0)), ('sync',), ('call', 2, B('RPUSH', 'a', 'x')), ('sync',),
@@ -190,6 +211,11 @@ def run_schedule(ctx, srv, name, steps, tr):
                 if st[1] in run.cl:
                     run.call(st[1], [b'EVAL', src, str(len(st[3])).encode()] + st[3] + st[4],
                              extra={'prog': L.clean(st[2]), 'sha': list(L.sha1hex(src))})
+            elif op == 'gate':
+                if st[1] == 'step':
+                    srv.ctl.cmd('STEP 1')
+                else:
+                    srv.ctl.cmd('GATE ' + st[1])
             elif op == 'idof':
                 if st[1] in run.cl:
                     run.call(st[1], [b'CLIENT', b'ID'])
@@ -211,6 +237,7 @@ def run_schedule(ctx, srv, name, steps, tr):
     except (OSError, ServerDied):
         pass
     if srv.alive():
+        srv.ctl.cmd('GATE off')
         run.finish()
     else:
         run.merge([], None)
